@@ -16,7 +16,8 @@ Directive grammar (each on its own line, leading whitespace allowed):
   //@ tail                  ... immediately before the tail expression (last expression of the body)
   //@ exit                  ... immediately before the body's closing brace (functions returning `()`)
   //@ loop-end N            ... immediately before the closing brace of the N-th loop's body
-  //@ region-start "TEXT" / region-as HEADER / region-prologue TEXT / region-epilogue TEXT
+  //@ loop-after N          ... immediately after the N-th loop (a statement position)
+  //@ region-start "TEXT" / region-end "TEXT" / region-as HEADER / region-prologue TEXT / region-epilogue TEXT
                             rule R16: the block statement of the fn that starts at TEXT becomes the body of a
                             synthetic function with the declared header (nested fn items are cut; select them with
                             `<outer fn selector> :: fn NAME`)
@@ -99,6 +100,38 @@ def locate(path, selector):
             raise ExtractError("anchor lost: %d matches for `%s` in %s" % (len(found), selector, path))
         return sf, found[0]
     raise ExtractError("bad selector: %s" % selector)
+
+def _stmt_extent(st_, i0):
+    """index of the last significant token of the statement that starts at st_[i0]: a block statement (for / while / loop /
+    if [else ..] / match / block) ends at its closing brace, anything else at the `;` at depth 0"""
+    if st_[i0].text in ("for", "while", "loop", "if", "match", "{"):
+        j = i0 + (0 if st_[i0].text == "{" else 1); d = 0
+        if st_[i0].text == "for":
+            while True:
+                y = st_[j]
+                if y.kind == "punct" and y.text in OPEN: j = match_close(st_, j) + 1; continue
+                if y.kind == "ident" and y.text == "in": break
+                j += 1
+        while True:
+            x = st_[j]
+            if x.kind == "punct":
+                if x.text == "{" and d == 0: break
+                if x.text in OPEN: d += 1
+                elif x.text in CLOSE: d -= 1
+            j += 1
+        c = match_close(st_, j)
+        while st_[i0].text == "if" and c + 1 < len(st_) and st_[c + 1].text == "else":
+            j = c + 2
+            while st_[j].text != "{": j += 1
+            c = match_close(st_, j)
+        return c
+    j = i0; d = 0
+    while True:
+        x = st_[j]
+        if x.kind == "punct":
+            if x.text in OPEN: j = match_close(st_, j) + 1; continue
+            if x.text == ";": return j
+        j += 1
 
 def _nested_fns(sf, outer, name=None):
     """fn items declared inside the body of fn item `outer` (any depth); -> list of Item-like objects"""
@@ -319,6 +352,52 @@ def rule_r5(text, rules):
             rules.append("R5")
     return apply_edits(text, edits) if edits else text
 
+def _enclosing_open(st, k):
+    """index of the `{` that encloses position k (exclusive), or None"""
+    d = 0; e = k
+    while e >= 0:
+        x = st[e]
+        if x.kind == "punct":
+            if x.text == "}": d += 1
+            elif x.text == "{":
+                if d == 0: return e
+                d -= 1
+        e -= 1
+    return None
+
+def _block_header_kw(st, body_open):
+    """keyword that introduces the block opened at body_open: for / while / loop / if / else / None"""
+    if st[body_open - 1].kind == "ident" and st[body_open - 1].text in ("else", "loop"): return st[body_open - 1].text
+    q = body_open - 1; d2 = 0
+    while q >= 0:
+        x = st[q]
+        if x.kind == "punct" and x.text in ("}", ";", "{") and d2 == 0: return None
+        if x.kind == "punct" and x.text in (")", "]"): d2 += 1
+        if x.kind == "punct" and x.text in ("(", "["): d2 -= 1
+        if x.kind == "ident" and x.text in ("for", "while", "loop", "if", "match") and d2 == 0: return x.text
+        q -= 1
+    return None
+
+def _in_loop_tail(st, body_open, depth=0):
+    if depth > 20: return False
+    kw = _block_header_kw(st, body_open)
+    if kw in ("for", "while", "loop"): return True
+    if kw not in ("if", "else"): return False
+    # end of the whole if / else-if / else chain this block belongs to
+    c = match_close(st, body_open)
+    while c + 1 < len(st) and st[c + 1].kind == "ident" and st[c + 1].text == "else":
+        j = c + 2
+        while st[j].text != "{": j += 1
+        c = match_close(st, j)
+    nxt = c + 1
+    if nxt < len(st) and st[nxt].text == ";": nxt += 1
+    if not (nxt < len(st) and st[nxt].text == "}"): return False     # something follows the chain in its parent block
+    # start of the chain: walk back over `else if .. {..}` links to the first `if`
+    parent = _enclosing_open(st, body_open - 1)
+    # body_open - 1 may lie inside an earlier arm's braces only if we are an else-arm: _enclosing_open skips balanced blocks
+    if parent is None: return False
+    return _in_loop_tail(st, parent, depth + 1)
+
 def rule_r14(text, rules):
     """`loop-body { ...; if C { S; continue; } REST }`  ->  `{ ...; if C { S } else { REST } }`
     (Verus for-loops do not support `continue`; an early `continue` that ends a top-level `if` without `else` is the same as
@@ -353,30 +432,14 @@ def rule_r14(text, rules):
             if k >= 0 and st[k].kind == "ident" and st[k].text == "else": continue
             # no else after
             if if_close + 1 < len(st) and st[if_close + 1].kind == "ident" and st[if_close + 1].text == "else": continue
-            # enclosing block = loop body: find the `{` that encloses st[k+1]
-            d = 0; e = k
-            while e >= 0:
-                x = st[e]
-                if x.kind == "punct":
-                    if x.text == "}": d += 1
-                    elif x.text == "{":
-                        if d == 0: break
-                        d -= 1
-                e -= 1
-            if e < 0: continue
-            body_open = e
-            # that block must be a loop body: preceded (at some distance) by for/while/loop header -> check by _loop_headers
+            # enclosing block: find the `{` that encloses st[k+1]
+            body_open = _enclosing_open(st, k)
+            if body_open is None: continue
             body_close = match_close(st, body_open)
-            hdr_ok = False
-            q = body_open - 1; d2 = 0
-            while q >= 0:
-                x = st[q]
-                if x.kind == "punct" and x.text in ("}", ";") and d2 == 0: break
-                if x.kind == "punct" and x.text in (")", "]"): d2 += 1
-                if x.kind == "punct" and x.text in ("(", "["): d2 -= 1
-                if x.kind == "ident" and x.text in ("for", "while", "loop") and d2 == 0: hdr_ok = True; break
-                q -= 1
-            if not hdr_ok: continue
+            # it must be a loop body, or a block in TAIL POSITION of a loop body (the arm of an if / else-if / else chain that
+            # is the last statement of its own enclosing block, and so on up to the loop body): skipping the rest of such a
+            # block is the same as skipping the rest of the iteration
+            if not _in_loop_tail(st, body_open): continue
             rest_start = st[if_close].end
             rest_end = st[body_close].start
             rest = text[rest_start:rest_end]
@@ -668,28 +731,17 @@ def extract_item(path, selector, opts, directives, findings_open):
         a0 = orig.index(anchor)
         toks_, st_ = _sig_with_index(orig)
         i0 = next((i for i, t in enumerate(st_) if t.start == a0), None)
-        if i0 is None or not _stmt_start(st_, i0) or st_[i0].text not in ("for", "while", "loop", "if", "match", "{"):
-            raise ExtractError("region start is not the first token of a block statement in %s %s" % (path, selector))
-        j = i0 + (0 if st_[i0].text == "{" else 1); d = 0
-        if st_[i0].text == "for":
-            # skip the pattern (may contain braces) up to `in`
-            while True:
-                y = st_[j]
-                if y.kind == "punct" and y.text in OPEN: j = match_close(st_, j) + 1; continue
-                if y.kind == "ident" and y.text == "in": break
-                j += 1
-        while True:
-            x = st_[j]
-            if x.kind == "punct":
-                if x.text == "{" and d == 0: break
-                if x.text in OPEN: d += 1
-                elif x.text in CLOSE: d -= 1
-            j += 1
-        c = match_close(st_, j)
-        while st_[i0].text == "if" and c + 1 < len(st_) and st_[c + 1].text == "else":
-            j = c + 2
-            while st_[j].text != "{": j += 1
-            c = match_close(st_, j)
+        if i0 is None or not _stmt_start(st_, i0):
+            raise ExtractError("region start is not the first token of a statement in %s %s" % (path, selector))
+        c = _stmt_extent(st_, i0)
+        if rg.get("end"):
+            n2 = orig.count(rg["end"])
+            if n2 != 1: raise ExtractError("anchor lost: region end %r occurs %d times in %s %s" % (rg["end"][:40], n2, path, selector))
+            a1 = orig.index(rg["end"])
+            i1 = next((i for i, t in enumerate(st_) if t.start == a1), None)
+            if i1 is None or not _stmt_start(st_, i1) or i1 < i0:
+                raise ExtractError("region end is not the first token of a later statement in %s %s" % (path, selector))
+            c = _stmt_extent(st_, i1)
         r_lo, r_hi = st_[i0].start, st_[c].end
         region = orig[r_lo:r_hi]
         # cut nested fn items
@@ -755,7 +807,7 @@ def extract_item(path, selector, opts, directives, findings_open):
     # drop doc comments inside types (field docs are harmless but `//!` is not)
     if it.kind == "fn":
         text = splice_fn(text, opts, directives, path, selector)
-    elif any(k in directives for k in ("sig", "entry", "tail", "exit", "loop", "loop-end", "before", "after", "ret")):
+    elif any(k in directives for k in ("sig", "entry", "tail", "exit", "loop", "loop-end", "loop-after", "before", "after", "ret")):
         raise ExtractError("splice directives only apply to fn items (%s)" % selector)
     pc.text = prefix + text
     return pc
@@ -812,6 +864,11 @@ def splice_fn(text, opts, directives, path, selector):
                     j += 1
                 edits.append((st[j].end, st[j].end, " %s:" % itername))
             edits.append((st[lbo].start, st[lbo].start, "\n" + ltxt + "\n"))
+        for (n, ltxt) in directives.get("loop-after", []):
+            if n < 1 or n > len(loops):
+                raise ExtractError("anchor lost: loop %d of %s (has %d)" % (n, where, len(loops)))
+            lbc = match_close(st, loops[n - 1][1])
+            edits.append((st[lbc].end, st[lbc].end, "\n" + ltxt + "\n"))
         for (n, ltxt) in directives.get("loop-end", []):
             if n < 1 or n > len(loops):
                 raise ExtractError("anchor lost: loop %d of %s (has %d)" % (n, where, len(loops)))
@@ -986,8 +1043,8 @@ def generate(spec_path, open_findings=(), auto_helpers=()):
                         directives[cur[0]] = (directives.get(cur[0], "") + "\n" + txt) if cur[0] in directives else txt
                     elif cur[0] == "loop":
                         directives.setdefault("loop", []).append((cur[1], cur[2], txt))
-                    elif cur[0] == "loop-end":
-                        directives.setdefault("loop-end", []).append((cur[1], txt))
+                    elif cur[0] in ("loop-end", "loop-after"):
+                        directives.setdefault(cur[0], []).append((cur[1], txt))
                     elif cur[0] in ("before", "after"):
                         directives.setdefault("anchors", []).append((cur[0], cur[1], cur[2], txt))
                     cur = None; buf = []
@@ -1012,6 +1069,8 @@ def generate(spec_path, open_findings=(), auto_helpers=()):
                         if d2 == "end": i += 1; break
                         if d2.startswith("region-start "):
                             q, _r = _parse_quoted(d2[len("region-start "):]); directives.setdefault("region", {})["start"] = q
+                        elif d2.startswith("region-end "):
+                            q, _r = _parse_quoted(d2[len("region-end "):]); directives.setdefault("region", {})["end"] = q
                         elif d2.startswith("region-as "): directives.setdefault("region", {})["as"] = d2[len("region-as "):].strip()
                         elif d2.startswith("region-prologue "): directives.setdefault("region", {})["prologue"] = d2[len("region-prologue "):].strip()
                         elif d2.startswith("region-epilogue "): directives.setdefault("region", {})["epilogue"] = d2[len("region-epilogue "):].strip()
@@ -1019,8 +1078,8 @@ def generate(spec_path, open_findings=(), auto_helpers=()):
                         elif d2.startswith("derive "): directives.setdefault("derive", []).append(d2[7:].strip())
                         elif d2.startswith("attr "): directives.setdefault("attr", []).append(d2[5:].strip())
                         elif d2 in ("sig", "entry", "tail", "exit"): cur = (d2,)
-                        elif d2.startswith("loop-end "):
-                            cur = ("loop-end", int(d2.split()[1]))
+                        elif d2.startswith("loop-end ") or d2.startswith("loop-after "):
+                            cur = (d2.split()[0], int(d2.split()[1]))
                         elif d2.startswith("loop "):
                             ws = d2.split()
                             itn = None
